@@ -39,6 +39,19 @@ func (in *VerifIn) Put(b []byte) bool {
 	}
 }
 
+// Take removes the oldest buffered frame (what the run loop's select would receive).
+func (in *VerifIn) Take() ([]byte, bool) {
+	select {
+	case f, ok := <-in.ch:
+		if !ok {
+			return nil, false
+		}
+		return f.bytes.Bytes(), true
+	default:
+		return nil, false
+	}
+}
+
 // Len is the number of buffered frames.
 func (in *VerifIn) Len() int { return len(in.ch) }
 
